@@ -304,3 +304,20 @@ def _provenance(own: Ownership, f: FuncInfo, node: int, name: str) -> str:
             break
         at = d.node
     return " <- ".join(f"`{c}`" for c in chain) or f"`{name}`"
+
+
+# ---- added: the eager loop over orientations scatters its results (found on the tree: BlochwaveEnsemble)
+_inner_run_c26b = run
+
+
+def run(ctx) -> None:  # noqa: F811
+    from . import c10
+
+    ctx.rule("R-SCATTER", "(the rule of C10, applied to abtem/bloch/dynamical.py) a loop `for i in np.ndindex(<ensemble "
+             "shape>)` that fills a pre-allocated output stores at a position that contains i itself (array[i + (...)] or array[i][...]; data derived "
+             "from i, such as a mask computed for member i, selects inside a member, not the member): "
+             "`array[..., mask] = result_i` writes result_i into *every* orientation, so the eager ensemble returns "
+             "the last orientation's intensities for all members while the lazy path (one orientation per block) is "
+             "right")
+    c10._check_scatter(ctx, modules={"abtem.bloch.dynamical"}, iters={"ndindex": 1}, floors=(1, 1), direct=True)
+    _inner_run_c26b(ctx)
